@@ -17,6 +17,8 @@ Protocol (ids are small naturals; op n is "op<n>", resource n is "r<n>" in the i
   advance o            controller.advance(ctx) (default checkpoints: G0 -> G1 makes the operation a starvation candidate)
   flag o r|e|v 0|1     public attribute of the live context re-assigned: ctx.resources_acquired / execution_complete /
                        validation_passed (with them `advance` takes an operation through every phase and round the cycle)
+  prio o p             public attribute of the live context re-assigned: ctx.priority = p (locks the operation already owns
+                       keep the owner_priority they were taken with; waiting-list entries keep theirs)
   track a o            public attribute of the live cell re-assigned: cell.agent_operations[agent a] = "op<o>" (agent 0 is the
                        agent every `cell` line uses, agent 1 another one)
   cnest o p r,.. i ip q,.. <cc|cx|xc|xx> <w|v|0..3> <same|other> <yes|no>   SEARCH-ONLY (last line of a case): operation o
@@ -147,15 +149,47 @@ REQ_KINDS = {
     "k": lambda ids: {x: None for x in ids}.keys() if len(set(ids)) == len(ids) else tuple(ids),   # a dict's key view
     "q": lambda ids: __import__("collections").deque(ids),
     "s": IdSeq,
+    "x": list,                                    # a plain list - which the work function EMPTIES in place (the caller's
+                                                  # own object, mutated after the request was walked)
 }
 
 
 def as_request(ids, kind):
     """the `resources` argument of execute_operation / IntegratedCell.execute as the caller passes it: the same ids in
-    the same order as a list (no mark), or as another iterable type - the one-shot ones can be walked only once"""
+    the same order as a list (no mark), or as another iterable type - the one-shot ones can be walked only once;
+    `e<k>`: a generator whose iteration RAISES after it has yielded the first k ids"""
     if ids is None or not kind:
         return ids
+    if kind.startswith("e") and kind[1:].isdigit():
+        def gen(k=int(kind[1:]), ids=list(ids)):
+            yield from ids[:k]
+            raise RuntimeError("request iterator failed")
+        return gen()
     return REQ_KINDS[kind](list(ids))
+
+
+class IntSub(int):
+    """an int subclass (an IntEnum-like priority level)"""
+
+
+def prio_of(tok):
+    """`<int>[~<kind>]`: the priority as the caller passes it - an int, or the same number as another legal numeric type:
+    `b` a bool (0 / 1 only), `s` an int subclass, `q` a fractions.Fraction"""
+    v, _, kind = tok.partition("~")
+    n = int(v)
+    if kind == "b" and n in (0, 1):
+        return bool(n)
+    if kind == "s":
+        return IntSub(n)
+    if kind == "q":
+        from fractions import Fraction
+        return Fraction(n)
+    return n
+
+
+def pint(tok):
+    """the numeric value of a priority token (what the oracles compute with)"""
+    return int(tok.partition("~")[0])
 
 
 def opn(n):
@@ -224,17 +258,17 @@ class Impl:
             return int((d - t0) / _dt.timedelta(microseconds=1))
         locks = {}
         for rid, l in ctrl.resources.items():
-            locks[num(rid)] = {"owner": num(l.owner), "prio": l.owner_priority, "hold": l.hold_count,
-                               "pre": bool(l.allow_preemption), "waiting": [(num(a), p) for a, p in l.waiting_list]}
+            locks[num(rid)] = {"owner": num(l.owner), "prio": int(l.owner_priority), "hold": l.hold_count,
+                               "pre": bool(l.allow_preemption), "waiting": [(num(a), int(p)) for a, p in l.waiting_list]}
         active = {}
         for oid, c in ctrl.active_operations.items():
-            active[num(oid)] = {"prio": c.priority, "phase": c.phase.value,
+            active[num(oid)] = {"prio": int(c.priority), "phase": c.phase.value,
                                 "acq": [num(k) for k in c.acquired_resources.keys()],
                                 "flags": (bool(c.resources_acquired), bool(c.execution_complete),
                                           bool(c.validation_passed), bool(c.metadata.get("watchdog_exempt", False))),
                                 "created": us(c.created_at), "phase_at": us(c.phase_entered_at)}
         edges = {num(w): [(num(b), num(r)) for b, r in deps] for w, deps in ctrl.dependency_graph.edges.items()}
-        boosts = {num(k): b.original_priority for k, b in cs.priority_manager.active_boosts.items()}
+        boosts = {num(k): int(b.original_priority) for k, b in cs.priority_manager.active_boosts.items()}
         return {"locks": locks, "active": active, "edges": edges, "boosts": boosts}
 
     @staticmethod
@@ -281,7 +315,7 @@ class Impl:
 
     @staticmethod
     def show_boosts(bs):
-        items = sorted((int(num(b.operation_id)), b.boosted_priority, b.original_priority) for b in bs)
+        items = sorted((int(num(b.operation_id)), int(b.boosted_priority), int(b.original_priority)) for b in bs)
         return "[" + ",".join(f"{a}:{o}>{n}" for a, n, o in items) + "]"
 
     # ------------------------------------------------------------------------------------------------------
@@ -289,7 +323,7 @@ class Impl:
         cs = self.cs
         ctrl = cs.controller
         C = self.o.m_controller
-        op, prio = opn(int(t[1])), int(t[2])
+        op, prio = opn(int(t[1])), prio_of(t[2])
         rtok, _, rkind = t[3].partition("~")
         req = None if rtok == "none" else ([] if rtok == "-" else [rn(int(x)) for x in rtok.split(",")])
         script = t[4].split("@")[0]
@@ -352,6 +386,8 @@ class Impl:
                                for r in (req or [])))
             info["listed_at_work"] = op in ctrl.active_operations
             log.append(f"work:{show_bool(wok.startswith('ok'))}")
+            if rkind == "x" and isinstance(passed[0], list):
+                passed[0].clear()            # the caller's request list, emptied in place while the operation works
             perform(act, tick)
             if not wok.startswith("ok"):
                 raise make_exc(wok, "work")
@@ -378,6 +414,7 @@ class Impl:
             return (f"{show_bool(res.success)} {res.phase_reached.value} err:{err} own:{own[0] if own else '-'} "
                     f"[{','.join(log)}]")
         captured = []
+        passed = [as_request(req, rkind)]
         orig_exec = cs.execute_operation
         cell = self.cell
         try:
@@ -393,7 +430,7 @@ class Impl:
                     def boom(*a, **k):
                         raise make_exc(post, "pool")
                     cell.quality_pool.allocate = boom
-                cres = cell.execute(agent(), op, work, resources=as_request(req, rkind),
+                cres = cell.execute(agent(), op, work, resources=passed[0],
                                     validate_fn=None if val == "absent" else validate, priority=prio)
                 res = captured[0] if captured else None
                 out = (f"cell:{show_bool(cres.success)} {cres.blocked_by or 'none'} out:{show_bool(cres.output is not None)} "
@@ -406,7 +443,7 @@ class Impl:
                 info["has_output"] = cres.output is not None
                 info["tracked"] = "agent" in cell.agent_operations
             else:
-                res = cs.execute_operation(op, agent(), work, resources=as_request(req, rkind),
+                res = cs.execute_operation(op, agent(), work, resources=passed[0],
                                            validate_fn=None if val == "absent" else validate, priority=prio)
                 out = show_coord(res)
                 info["success"] = bool(res.success)
@@ -579,13 +616,19 @@ class Impl:
                 if name is not None:
                     setattr(ctx, name, t[3] == "1")
                 return "ok", info
+            if k == "prio" and len(t) == 3:
+                ctx = ctrl.active_operations.get(opn(int(t[1])))
+                if ctx is None:
+                    return "noop", info
+                ctx.priority = prio_of(t[2])          # public attribute of the live context re-assigned from outside
+                return "ok", info
             if k == "res" and len(t) == 3:
                 if rn(int(t[1])) in ctrl.resources:
                     return "dup", info
                 cs.register_resource(rn(int(t[1])), allow_preemption=t[2] == "1")
                 return "ok", info
             if k == "start" and len(t) == 3:
-                cs.start_operation(opn(int(t[1])), agent(), priority=int(t[2]))
+                cs.start_operation(opn(int(t[1])), agent(), priority=prio_of(t[2]))
                 return "ok", info
             if k in ("acq", "rel") and len(t) == 3:
                 ctx = ctrl.active_operations.get(opn(int(t[1])))
@@ -643,7 +686,7 @@ class Impl:
                 info["pre_deadlock"] = self.deadlock_view()
                 r = cs.run_maintenance()
                 info["events"] = [(num(e.operation_id), e.reason.value) for e in r["apoptosis"]]
-                info["boosts"] = [(num(b.operation_id), b.boosted_priority) for b in r["priority_boosts"]]
+                info["boosts"] = [(num(b.operation_id), int(b.boosted_priority)) for b in r["priority_boosts"]]
                 return f"{self.show_boosts(r['priority_boosts'])} {self.show_events(r['apoptosis'])}", info
             if k == "exec" and len(t) == 7:
                 return self.do_exec(t, info), info
@@ -718,6 +761,16 @@ def gen_cb_act(rng, op, others, ticks=(1, 4, 6, 11)):
     return a
 
 
+def gen_prio(rng, lo=0, hi=5):
+    """a priority token: mostly a plain int, sometimes the same number as a bool / an int subclass / a Fraction"""
+    n = rng.randint(lo, hi)
+    if rng.random() < 0.15:
+        k = rng.choice("bsq")
+        if k != "b" or n in (0, 1):
+            return f"{n}~{k}"
+    return str(n)
+
+
 def gen_exec(rng, op, nres, others, fault=None, cb=None):
     k = rng.choice([0, 1, 1, 2, 2, 3, 3, 4])
     req = [rng.randint(1, nres) for _ in range(k)]
@@ -726,6 +779,8 @@ def gen_exec(rng, op, nres, others, fault=None, cb=None):
     rs = ",".join(map(str, req)) if req else rng.choice(["-", "none"])
     if rs != "none" and rng.random() < 0.3:
         rs += "~" + rng.choice(sorted(REQ_KINDS))     # the request passed as another iterable type (some are one-shot)
+    elif rs != "none" and rng.random() < 0.05:
+        rs += f"~e{rng.randint(0, len(req))}"         # ... whose iteration raises at the k-th step
     cps = rng.choice(CP_SCRIPTS)
     a = rng.random()
     if a < 0.55:
@@ -756,8 +811,8 @@ def gen_exec(rng, op, nres, others, fault=None, cb=None):
         if val != "absent" and rng.random() < 0.3:
             val += "@" + gen_cb_act(rng, op, others)
     if rng.random() < 0.35:
-        return f"cell {op} {rng.randint(0, 5)} {rs} {cps} {act}:{wok} {val} {rng.choice(POSTS)}"
-    return f"exec {op} {rng.randint(0, 5)} {rs} {cps} {act}:{wok} {val}"
+        return f"cell {op} {gen_prio(rng)} {rs} {cps} {act}:{wok} {val} {rng.choice(POSTS)}"
+    return f"exec {op} {gen_prio(rng)} {rs} {cps} {act}:{wok} {val}"
 
 
 def gen_cfg(rng):
@@ -944,7 +999,7 @@ def request_kind_table():
     """the `resources` argument as every iterable type (list, tuple, generator, iterator, map, filter, dict keys view,
     deque, list subclass) x request shapes (empty, one, two, repeated, unknown id) x who holds what x both layers"""
     cases = []
-    for kind in [""] + sorted(REQ_KINDS):
+    for kind in [""] + sorted(REQ_KINDS) + ["e0", "e1", "e2"]:
         for req in ("-", "1", "1,2", "2,1", "1,1", "1,2,1", "2,9"):
             for hold in ("free", "r2-held", "r1-preemptable"):
                 for layer in ("exec", "cell"):
@@ -1134,6 +1189,9 @@ def gen_boost_inversion(rng):
         pos = len(closing) if rng.random() < 0.7 else rng.randrange(len(closing) + 1)
         closing.insert(pos, f"acq {x} {target}")
     lines += closing + ["deadlock"]
-    lines += rng.choice([["maint"], ["maint"], ["boost", "watchdog"], ["boost", "boost", "watchdog"], ["boost", "maint"]])
+    if rng.random() < 0.25:          # a priority re-assigned from outside on a live context: the CURRENT one counts
+        lines.append(f"prio {rng.choice(order)} {rng.choice([0, 7, 9])}")
+    lines += rng.choice([["maint"], ["maint"], ["boost", "watchdog"], ["boost", "boost", "watchdog"], ["boost", "maint"],
+                         ["watchdog"]])
     lines += ["deadlock", "watchdog"]
     return {"lines": lines, "note": "priority inheritance lifts one ring member above another before the watchdog looks"}
